@@ -330,6 +330,12 @@ pub fn run() {
         let d = gen_long_sparse(r, 40, 120, pool, gl, 0.0);
         check_desc("long-sparse", i, r, &d);
     });
+    // hubs of degree 129-220
+    par_cases("hub", t.pick(60usize, 2_000usize), move |r, i| {
+        let gl = r.chance(0.5);
+        let d = gen_hub(r, 129, 220, PhasePool::Exact, gl);
+        check_desc("hub", i, r, &d);
+    });
     // larger circuits (the evaluator's bucket elimination keeps them cheap: width ~ qubits)
     let (lq, ld, ln) = t.pick((5usize, 30usize, 60usize), (6usize, 60usize, 6_000usize));
     par_cases("circuit-derived-large", ln, move |r, i| {
